@@ -44,8 +44,16 @@ Section Mean.
   Variables l r pinf : Q.
   Hypothesis l_le_r : l <= r.
   Hypothesis pinf_ge_1 : 1 <= pinf.
+  Hypothesis pinf_left : - pinf <= l.       (* np.inf lies beyond the truncation bounds *)
+  Hypothesis pinf_right : r <= pinf.
 
   Let m1t := tmass m1 l r.
+
+  (* the truncated first moment over the whole line is the first moment over [l, r] *)
+  Lemma m1t_all : m1t (- pinf) pinf == m1 l r.
+  Proof.
+    unfold m1t, tmass, truncated_interval. cbv beta iota zeta. apply m1_proper; qcases; lra.
+  Qed.
 
   Lemma m1t_add a b c : a <= b -> b <= c -> m1t a c == m1t a b + m1t b c.
   Proof. intros. unfold m1t. apply tmass_add; assumption. Qed.
@@ -73,6 +81,47 @@ Section Mean.
       cbv zeta; lra.
   Qed.
 
+  (* the first cumulant in terms of the measure restricted to [l, r] *)
+  Theorem mean_rate_explicit fv a :
+    mean_rate m1t pinf 1 fv a == a + m1 l r /\ mean_rate m1t pinf 2 fv a == a
+    /\ mean_rate m1t pinf 4 true a == a + m1 l r
+    /\ mean_rate m1t pinf 3 fv a == a + m1 l r - m1t (- (1)) 1.
+  Proof.
+    pose proof split3 as S3. pose proof m1t_all as MA.
+    unfold mean_rate; cbn [Z.eqb Pos.eqb]; cbv zeta. repeat split; lra.
+  Qed.
+
+  (* representation invariance: each of the four conversions of LevyTriplet (generated from the source) maps the drift of
+     ANY declared representation to the drift of its target representation WITHOUT changing the first cumulant; so the
+     chain's mean does not depend on the representation the model happens to be declared in *)
+  Theorem conversions_preserve_mean rep fv a : (rep = 1 \/ rep = 2 \/ rep = 3 \/ rep = 4)%Z ->
+    mean_rate m1t pinf 3 fv (canonical_drift m1t pinf rep fv a) == mean_rate m1t pinf rep fv a
+    /\ mean_rate m1t pinf 1 fv (zero_drift m1t pinf rep fv a) == mean_rate m1t pinf rep fv a
+    /\ mean_rate m1t pinf 2 fv (center_drift m1t pinf rep fv a) == mean_rate m1t pinf rep fv a
+    /\ mean_rate m1t pinf 4 fv (tilde_drift m1t pinf rep fv a) == mean_rate m1t pinf rep fv a.
+  Proof.
+    pose proof split3 as S3.
+    assert (Em : m1t (-1 # 1) (1 # 1) == m1t (- (1)) 1) by (apply m1t_proper; reflexivity).
+    assert (En : m1t (- pinf) (-1 # 1) == m1t (- pinf) (- (1))) by (apply m1t_proper; reflexivity).
+    intros [-> | [-> | [-> | ->]]]; destruct fv;
+      unfold mean_rate, tilde_drift, zero_drift, center_drift, canonical_drift; cbn [Z.eqb Pos.eqb negb orb andb];
+      cbv zeta; repeat split; lra.
+  Qed.
+
+  (* the unrepaired copula chain cut mu_tilde at the JOINT flag: for a finite-variation margin in an infinite-variation
+     copula model the mean is off by exactly - int_{-1}^{1} x nu(dx) of that margin (and by + that amount the other way) *)
+  Theorem joint_flag_bias mid mass xs o md rep a : (o + 1 < length xs)%nat -> (rep = 1 \/ rep = 2 \/ rep = 3 \/ rep = 4)%Z ->
+    process_drift_v m1t pinf md rep true false a (compute_mu_h mid mass xs o) + mean_of_rates mid mass xs o
+    == md + mean_rate m1t pinf rep true a - m1t (- (1)) 1
+    /\ process_drift_v m1t pinf md rep false true a (compute_mu_h mid mass xs o) + mean_of_rates mid mass xs o
+    == md + mean_rate m1t pinf rep false a + m1t (- (1)) 1.
+  Proof.
+    intros Ho Hr. unfold process_drift_v. rewrite (mu_h_is_sum mid mass xs o Ho).
+    pose proof (mean_identity_core rep true a Hr) as T. pose proof (mean_identity_core rep false a Hr) as F.
+    pose proof split3 as S3. pose proof split2 as S2.
+    unfold mu_tilde, v_cut in *. split; lra.
+  Qed.
+
   (* with the identity mu_h == sum_k x_k q_k this is the statement about the simulated process *)
   Theorem mean_identity mid mass xs o md rep fv a :
     (o + 1 < length xs)%nat -> (rep = 1 \/ rep = 2 \/ rep = 3 \/ rep = 4)%Z ->
@@ -83,6 +132,45 @@ Section Mean.
     pose proof (mean_identity_core rep fv a Hr). lra.
   Qed.
 End Mean.
+
+(* infinite variation: the compensated representations CENTER / ONEONE / TILDE only ever integrate x nu over the two tails
+   |x| >= 1; the identity needs NO hypothesis on m1 there (in particular nothing about intervals containing the origin,
+   where int |x| nu is infinite) *)
+Section MeanInfiniteVariation.
+  Variable m1t : Q -> Q -> Q.
+  Variable pinf : Q.
+  Theorem mean_identity_core_iv rep a : (rep = 2 \/ rep = 3 \/ rep = 4)%Z ->
+    a_tilde m1t pinf rep false a + mu_tilde m1t pinf false == mean_rate m1t pinf rep false a.
+  Proof.
+    intros [-> | [-> | ->]];
+      unfold a_tilde, mu_tilde, mean_rate, tilde_drift, canonical_drift, v_cut; cbn [Z.eqb Pos.eqb negb orb andb];
+      cbv zeta; change (- (1)) with (-1 # 1); change 1 with (1 # 1); lra.
+  Qed.
+  Theorem mean_identity_iv mid mass xs o md rep a : (o + 1 < length xs)%nat -> (rep = 2 \/ rep = 3 \/ rep = 4)%Z ->
+    process_drift m1t pinf md rep false a (compute_mu_h mid mass xs o) + mean_of_rates mid mass xs o
+    == md + mean_rate m1t pinf rep false a.
+  Proof.
+    intros Ho Hr. unfold process_drift. rewrite (mu_h_is_sum mid mass xs o Ho).
+    pose proof (mean_identity_core_iv rep a Hr). lra.
+  Qed.
+End MeanInfiniteVariation.
+
+(* every margin of the (repaired) copula chain satisfies the mean identity with its OWN flag, representation and axis *)
+Definition cm_ok (m : cmargin) : Prop :=
+  (forall a b c, a <= b -> b <= c -> cm_m1 m a c == cm_m1 m a b + cm_m1 m b c)
+  /\ (forall a a' b b', a == a' -> b == b' -> cm_m1 m a b == cm_m1 m a' b')
+  /\ cm_l m <= cm_r m /\ 1 <= cm_pinf m
+  /\ (cm_o m + 1 < length (cm_xs m))%nat /\ (cm_rep m = 1 \/ cm_rep m = 2 \/ cm_rep m = 3 \/ cm_rep m = 4)%Z.
+Theorem copula_margins_mean mid ms : Forall cm_ok ms ->
+  Forall (fun m => cm_drift mid m + mean_of_rates mid (cm_mass m) (cm_xs m) (cm_o m)
+                   == cm_md m + mean_rate (cm_m1t m) (cm_pinf m) (cm_rep m) (cm_fv m) (cm_a m)) ms.
+Proof.
+  intros H. apply Forall_impl with (2 := H). intros m (A & P & LR & P1 & Ho & Hr).
+  unfold cm_drift, process_drift_v, cm_m1t.
+  pose proof (mean_identity (cm_m1 m) A P (cm_l m) (cm_r m) (cm_pinf m) LR P1 mid (cm_mass m) (cm_xs m) (cm_o m) (cm_md m)
+                (cm_rep m) (cm_fv m) (cm_a m) Ho Hr) as E.
+  unfold process_drift in E. exact E.
+Qed.
 
 Section Variance.
   Variable m2 : Q -> Q -> Q.       (* int x^2 nu(dx): additive, non-negative *)
